@@ -78,6 +78,11 @@ try:
         out['converters'][rc(m).name] = hashlib.sha256(repr(sorted(rc(m).converter.items())).encode()).hexdigest()
     for k in ['diacritics', 'vowels', 'tones']:
         h.update(repr(rc(k)).encode())
+    for spelling in ('evolaemp', 'el', 'asjp'):
+        rc(schema='ipa')
+        rc(schema=spelling)
+        for k in ['diacritics', 'vowels', 'tones']:
+            out['inventories']['%s under rc(schema=%r)' % (k, spelling)] = hashlib.sha256(repr(rc(k)).encode()).hexdigest()
     rc(schema='ipa')
     for k in ['diacritics', 'vowels', 'tones']:
         h.update(repr(rc(k)).encode())
